@@ -27,8 +27,8 @@ def tables(method, cg, agents, comps, mem, load):
     return pairs
 
 
-def one(hid, method, inst, dep, graph, zeros=False):
-    dcop, cg, agents, names, comps, mem, load, must, fp = problem(inst, dep, graph, False, explicit_zero=zeros)
+def one(hid, method, inst, dep, graph, zeros=False, asym=False):
+    dcop, cg, agents, names, comps, mem, load, must, fp = problem(inst, dep, graph, False, explicit_zero=zeros, asym=asym)
     mod = importlib.import_module("pydcop.distribution." + method)
     cbc_shim(mod)
     pairs = tables(method, cg, agents, comps, mem, load)
@@ -75,13 +75,16 @@ def run(tier):
                                      workers=2, seed=seed() + nag * 10 + len(inst["vars"]) + 24)
             v.add_tlc(dres, "agent sets (Gen_C25, %d agents)" % nag)
             for dep in deps:
-                for method, graph, zeros in (("oilp_cgdp", "constraints_hypergraph", False), ("oilp_cgdp", "factor_graph", False), ("ilp_fgdp", "factor_graph", False),
-                                             ("oilp_cgdp", "constraints_hypergraph", True), ("oilp_cgdp", "factor_graph", True), ("ilp_fgdp", "factor_graph", True)):
-                    rec = one(len(recs), method, inst, dep, graph, zeros)
+                for method, graph, zeros, asym in (("oilp_cgdp", "constraints_hypergraph", False, False), ("oilp_cgdp", "factor_graph", False, False),
+                                                   ("ilp_fgdp", "factor_graph", False, False), ("oilp_cgdp", "constraints_hypergraph", True, False),
+                                                   ("oilp_cgdp", "factor_graph", True, False), ("ilp_fgdp", "factor_graph", True, False),
+                                                   ("oilp_cgdp", "constraints_hypergraph", False, True), ("oilp_cgdp", "factor_graph", True, True),
+                                                   ("ilp_fgdp", "factor_graph", False, True)):
+                    rec = one(len(recs), method, inst, dep, graph, zeros, asym)
                     if len(rec["agents"]) ** len(rec["comps"]) > 20000:
                         continue
                     outcomes[method + ":" + rec["outcome"]] += 1
-                    meta[rec["id"]] = {"method": method, "graph": graph, "inst": inst, "dep": dep, "zeros": zeros}
+                    meta[rec["id"]] = {"method": method, "graph": graph, "inst": inst, "dep": dep, "zeros": zeros, "asym": asym}
                     recs.append(rec)
     recs = [dict(r, id=i) for i, r in enumerate(recs)]
     meta = {i: meta[r_id] for i, r_id in enumerate(sorted(meta))}
@@ -98,13 +101,13 @@ def run(tier):
             v.violation({"clause": clause, "method": m["method"], "graph": m["graph"], "with_pins": pinned},
                         "%s: %s on %s (%d agents): outcome %s host %s reported cost x10 = %s %s" % (
                             clause, m["method"], m["graph"], len(rec["agents"]), rec["outcome"], rec["host"], rec["reported"], rec.get("msg", "")),
-                        {"inst": m["inst"], "dep": m["dep"], "method": m["method"], "graph": m["graph"], "zeros": m["zeros"], "record": rec})
+                        {"inst": m["inst"], "dep": m["dep"], "method": m["method"], "graph": m["graph"], "zeros": m["zeros"], "asym": m["asym"], "record": rec})
         if not verdicts[rec["id"]] and rec["outcome"] == "mapping" and len(rec["comps"]) >= 4:
             v.sample({"method": m["method"], "graph": m["graph"], "capacities": rec["cap"], "pins": rec["pins"], "host": rec["host"], "cost_x10": rec["reported"]}, cap=3)
     v.cov["outcomes_by_method"] = dict(outcomes)
     v.cov["exhaustive"] = False
     v.cov["rule"] = ("DCOPs over 6 shapes (2-5 computations as constraints hyper-graph, 3-7 as factor graph) x TLC-drawn agent sets (2 quick / 2-3 agents, "
-                     "capacities {6,9,14,1000}, hosting costs {0,3,8} over a default of 4 - explicit zeros pin computations -, routes {1,2,5}); for each "
+                     "capacities {6,9,14,1000}, hosting costs {0,3,8} over a default of 4 - explicit zeros pin computations -, routes {1,2,5}, symmetric and - a third of the calls - asymmetric); for each "
                      "result TLC enumerates all |agents|^|computations| mappings; non-trivial = a mapping of at least 3 computations")
     v.cov["trusted_base"] = ["TLC (Judge_C24)", "PuLP's CBC solves the ILP models to optimality (glpsol is absent)",
                              "the numeric tables are read through the method's own route / load / hosting-cost helper functions"]
@@ -113,6 +116,6 @@ def run(tier):
 
 def replay(path):
     d = json.load(open(path))["replay"]
-    rec = one(0, d["method"], d["inst"], d["dep"], d["graph"], d.get("zeros", False))
+    rec = one(0, d["method"], d["inst"], d["dep"], d["graph"], d.get("zeros", False), d.get("asym", False))
     print(json.dumps({k: rec[k] for k in ("outcome", "host", "reported")}))
     return 1 if rec["host"] == d["record"]["host"] else 0
